@@ -62,6 +62,11 @@ reg('C19', 'exploration', 'runtime monitor: per-entry predicate oracle + metamor
     'as index directory or raw GTF; the kept entries must equal an own evaluation of the documented rule; a second pass must change nothing; stricter settings '
     'must keep a subset.', TB, 'DESIGN.md section 6 C19')
 
+reg('C05', 'exploration', 'runtime monitor: metamorphic relations over paired callVariant executions (inclusion + attribution predicates)',
+    'The same generated input is executed under ordered pairs of configurations / record sets / file sets; the smaller run must be included in the larger and '
+    'added peptides must be attributable (sequence-level limit predicate, SECT/W2F/ORF identifiers, not demanded without the added record). Includes dense inputs '
+    'that are too large for haplotype enumeration, compared by strict inclusion with limits disabled.', TB, 'DESIGN.md section 6 C05')
+
 NOT_YET = 'check not built yet in this session (runtime-monitoring design exists in DESIGN.md section 6); will be claimed when its monitor is committed'
 
 
